@@ -158,7 +158,7 @@ def c05Step (st : C05St) (op impl : String) : C05St × String × String :=
     let st0 : C05St := { st with model := none, impl := none, recs := [] }
     match pNat 65536 v, pU64 ep, pU64 tm, pU64 fe, pArr32 cmd, pU64 ba, pU64 la, pU64 pt, pU64 pi, pArr32 pd, pNat 1000000 n with
     | some v, some ep, some tm, some fe, some cmd, some ba, some la, some pt, some pi, some pd, some n =>
-      if api != "q" && api != "c" then (st0, "bad-op", "ok") else
+      if api != "q" && api != "c" && api != "d" then (st0, "bad-op", "ok") else
       match pRecs n rest with
       | none => (st0, "bad-op", "ok")
       | some recs =>
